@@ -124,6 +124,9 @@ def build_source(spec, env):
         q = build_program(spec[1], parent=env)
         if len(spec) > 2 and spec[2] is not None:
             q = q.as_(spec[2])
+        if len(spec) > 3 and isinstance(spec[3], dict) and spec[3].get("preused"):
+            # the object has served as the FROM source of an earlier statement, which gave it its automatic alias (sq0) - a documented side effect
+            P.Query.from_(q)
         return q
     if kind == "cte":
         return P.AliasedQuery(spec[1])
